@@ -8,7 +8,8 @@
 //! guards like the library under test):
 //!  * correct programs (mutex counter, condvar hand-off, bounded channel, `OnceLock`, `RwLock`,
 //!    `Barrier`, compare-exchange slot pool, detached jobs feeding a bounded channel that the
-//!    caller thread drains) give the result their synchronisation guarantees under
+//!    caller thread drains, a producer on a plain `std::thread` that the simulator does not know
+//!    feeding simulated consumers) give the result their synchronisation guarantees under
 //!    EVERY schedule - soundness: the emulation must not invent behaviour (lost wake-up, two owners
 //!    of a lock);
 //!  * incorrect ones are caught under SOME schedule - sensitivity: the load-then-store slot pool
@@ -214,6 +215,11 @@ fn main() {
             mismatch("spawn_and_recv", i, format!("{} != {}", r.value, bbtarget::spawn_and_recv_expected(3, 4)));
         }
         total.add(&r.stats);
+        let r = under_sim(s ^ 12, || bbtarget::external_producer(10, 2));
+        if r.value != bbtarget::external_producer_expected(10) {
+            mismatch("external_producer", i, format!("{} != {}", r.value, bbtarget::external_producer_expected(10)));
+        }
+        total.add(&r.stats);
         // -- sleeps are simulated --
         let t0 = std::time::Instant::now();
         let r = under_sim(s ^ 8, || {
@@ -256,7 +262,7 @@ fn main() {
             );
         }
         total.add(&a.stats);
-        evals += 12;
+        evals += 13;
     }
     let mut extra = 0u64;
     while racy_schedules < 160 {
@@ -322,7 +328,7 @@ fn main() {
         }
     }
     println!(
-        "synccheck: programs=13 evaluations={} mismatches={} racy_slot_pool_caught_in={}/{} lock_order_deadlocks={}/{} futex_waits={} futex_wakes={} futex_timeouts={} sleeps_simulated={} bb_preemptions={} guards_passed={} guard_sites={}",
+        "synccheck: programs=14 evaluations={} mismatches={} racy_slot_pool_caught_in={}/{} lock_order_deadlocks={}/{} futex_waits={} futex_wakes={} futex_timeouts={} sleeps_simulated={} bb_preemptions={} guards_passed={} guard_sites={}",
         evals,
         bad,
         racy_clashes,
